@@ -17,9 +17,10 @@ CARRIERS = ["element", "field", "parameter", "captured", "result", "map-value", 
 def literal_of(kind, v):
     """the operand written as a literal in place (the compiler then evaluates the operator itself); None when the value has no literal"""
     if kind == "int":
-        return str(v) if v >= 0 else (f"(-{-v})" if -v <= N.I32_MAX else None)
+        # the most negative value has no literal of its own: it is written as a literal EXPRESSION, which the compiler evaluates as well
+        return str(v) if v >= 0 else (f"(-{-v})" if -v <= N.I32_MAX else f"(-{N.I32_MAX} - 1)")
     if kind == "bigint":
-        return f"B{v}" if v >= 0 else (f"(-B{-v})" if -v <= N.I128_MAX else None)
+        return f"B{v}" if v >= 0 else (f"(-B{-v})" if -v <= N.I128_MAX else f"(-B{N.I128_MAX} - B1)")
     if kind == "byte":
         return "0b" + bin(v)[2:]
     if kind == "float":
